@@ -88,8 +88,25 @@ def _assert_async(ctx: Ctx, c: Collector) -> None:
     B = ("cmp", "in", dest, ("attr", src, "successors_to_wait_for"))
     raises = s.of_kind("raise")
     pr = []
+    # invariant successors_to_wait_for <= successors: every store into the first table has a sibling
+    # store into the second one (same owner, same key, same guards) -- then "in wait_for but not in
+    # successors" is not a state, and testing the smaller table alone is the same gate
+    subset = True
+    n_w = 0
+    for f2 in ctx.prog.all_functions():
+        s2 = summarise(ctx.prog, f2)
+        sts = [e for e in s2.of_kind("store") if e.term[1][0] == "idx" and e.term[1][1][0] == "attr"]
+        for e in sts:
+            if e.term[1][1][2] != "successors_to_wait_for":
+                continue
+            n_w += 1
+            owner, key = e.term[1][1][1], e.term[1][2]
+            if not any(o.term[1][1][2] == "successors" and o.term[1][1][1] == owner and o.term[1][2] == key and o.guards == e.guards and o.iters == e.iters for o in sts):
+                subset = False
+    c.info["wait_for_subset_of_successors"] = subset and n_w > 0
+    constraint = (lambda a: not (a[B] and not a[A])) if subset and n_w else None
     try:
-        for a, fired in tables.rows([(f"raise{e.idx}", e.guards) for e in raises], [A, B]):
+        for a, fired in tables.rows([(f"raise{e.idx}", e.guards) for e in raises], [A, B], constraint=constraint):
             if (not a[A] or not a[B]) and not fired:
                 pr.append("a request without an async_requests connection is not refused (%s)" % ("no connection at all" if not a[A] else "connection without async_requests"))
             if a[A] and a[B] and fired:
